@@ -28,6 +28,16 @@ class ModelAnalysis(Analysis):
     def log_likelihood_function(self, instance):
         return self.analysis.log_likelihood_function(instance)
 
+    # Analysis defines these as no-ops, so __getattr__ never forwards them
+    def save_attributes(self, paths: AbstractPaths):
+        return self.analysis.save_attributes(paths)
+
+    def save_results(self, paths: AbstractPaths, result):
+        return self.analysis.save_results(paths, result)
+
+    def save_results_combined(self, paths: AbstractPaths, result):
+        return self.analysis.save_results_combined(paths, result)
+
     def make_result(
         self,
         samples_summary: SamplesSummary,
